@@ -7,3 +7,4 @@ import JugModel.Props.C05
 #print axioms Jug.C05.redis_dump_is_one_set
 #print axioms Jug.C05.residue_is_temp_only
 #print axioms Jug.C05.visible_implies_complete
+#print axioms Jug.C05.old_or_new
